@@ -31,29 +31,29 @@ Qed.
 (* the identifiers handed out by the sanitizer do not depend on the schedule *)
 Theorem src_verilog_names_perm_invariant : forall pres pres',
   Permutation pres pres' ->
-  sanitize_all src_verilog_valid src_prefix_verilog (src_present_verilog pres) =
-  sanitize_all src_verilog_valid src_prefix_verilog (src_present_verilog pres').
+  sanitize_all src_valid_verilog src_prefix_verilog (src_present_verilog pres) =
+  sanitize_all src_valid_verilog src_prefix_verilog (src_present_verilog pres').
 Proof. intros pres pres' P. apply sanitize_sorted_perm_invariant. exact P. Qed.
 
 Theorem src_vcd_names_perm_invariant : forall pres pres',
   Permutation pres pres' ->
-  sanitize_all src_verilog_valid src_prefix_vcd (src_present_vcd pres) =
-  sanitize_all src_verilog_valid src_prefix_vcd (src_present_vcd pres').
+  sanitize_all src_valid_vcd src_prefix_vcd (src_present_vcd pres) =
+  sanitize_all src_valid_vcd src_prefix_vcd (src_present_vcd pres').
 Proof. intros pres pres' P. apply sanitize_sorted_perm_invariant. exact P. Qed.
 
 (* output_to_verilog (and, with its own sections, output_verilog_testbench): the module
    text is the same for every iteration order of wirevector_set and of logic, provided the
    identifiers written are pairwise distinct and no two nets are sorted by the same name *)
 Section SrcExport.
-  Variables (present : list name -> list name) (prefix : name).
+  Variables (present : list name -> list name) (valid : name -> bool) (prefix : name).
   Hypothesis present_is_sorted : present = present_sorted.
 
   Theorem src_export_text_perm_invariant : forall wsecs nsecs ws ws' ns ns',
     Permutation ws ws' -> Permutation ns ns' ->
-    NoDup (map (fun w => export_vn present src_verilog_valid prefix ws (wname w)) ws) ->
-    NoDup (map (fun n => nsort (rename_n (export_vn present src_verilog_valid prefix ws) n)) ns) ->
-    export_text src_natural_key src_natural_key_ltb present src_verilog_valid prefix wsecs nsecs ws ns =
-    export_text src_natural_key src_natural_key_ltb present src_verilog_valid prefix wsecs nsecs ws' ns'.
+    NoDup (map (fun w => export_vn present valid prefix ws (wname w)) ws) ->
+    NoDup (map (fun n => nsort (rename_n (export_vn present valid prefix ws) n)) ns) ->
+    export_text src_natural_key src_natural_key_ltb present valid prefix wsecs nsecs ws ns =
+    export_text src_natural_key src_natural_key_ltb present valid prefix wsecs nsecs ws' ns'.
   Proof.
     intros wsecs nsecs ws ws' ns ns' Pw Pn NDw NDn. subst present.
     apply export_text_perm_invariant_sorted; auto. exact src_natural_ltb_strict_total.
@@ -66,23 +66,23 @@ End SrcExport.
 
 Theorem src_verilog_text_perm_invariant : forall wsecs nsecs ws ws' ns ns',
   Permutation ws ws' -> Permutation ns ns' ->
-  NoDup (map (fun w => export_vn src_present_verilog src_verilog_valid src_prefix_verilog ws (wname w)) ws) ->
-  NoDup (map (fun n => nsort (rename_n (export_vn src_present_verilog src_verilog_valid src_prefix_verilog ws) n)) ns) ->
-  export_text src_natural_key src_natural_key_ltb src_present_verilog src_verilog_valid src_prefix_verilog
+  NoDup (map (fun w => export_vn src_present_verilog src_valid_verilog src_prefix_verilog ws (wname w)) ws) ->
+  NoDup (map (fun n => nsort (rename_n (export_vn src_present_verilog src_valid_verilog src_prefix_verilog ws) n)) ns) ->
+  export_text src_natural_key src_natural_key_ltb src_present_verilog src_valid_verilog src_prefix_verilog
               wsecs nsecs ws ns =
-  export_text src_natural_key src_natural_key_ltb src_present_verilog src_verilog_valid src_prefix_verilog
+  export_text src_natural_key src_natural_key_ltb src_present_verilog src_valid_verilog src_prefix_verilog
               wsecs nsecs ws' ns'.
-Proof. exact (src_export_text_perm_invariant src_present_verilog src_prefix_verilog eq_refl). Qed.
+Proof. exact (src_export_text_perm_invariant src_present_verilog src_valid_verilog src_prefix_verilog eq_refl). Qed.
 
 Theorem src_testbench_text_perm_invariant : forall wsecs nsecs ws ws' ns ns',
   Permutation ws ws' -> Permutation ns ns' ->
-  NoDup (map (fun w => export_vn src_present_testbench src_verilog_valid src_prefix_testbench ws (wname w)) ws) ->
-  NoDup (map (fun n => nsort (rename_n (export_vn src_present_testbench src_verilog_valid src_prefix_testbench ws) n)) ns) ->
-  export_text src_natural_key src_natural_key_ltb src_present_testbench src_verilog_valid src_prefix_testbench
+  NoDup (map (fun w => export_vn src_present_testbench src_valid_testbench src_prefix_testbench ws (wname w)) ws) ->
+  NoDup (map (fun n => nsort (rename_n (export_vn src_present_testbench src_valid_testbench src_prefix_testbench ws) n)) ns) ->
+  export_text src_natural_key src_natural_key_ltb src_present_testbench src_valid_testbench src_prefix_testbench
               wsecs nsecs ws ns =
-  export_text src_natural_key src_natural_key_ltb src_present_testbench src_verilog_valid src_prefix_testbench
+  export_text src_natural_key src_natural_key_ltb src_present_testbench src_valid_testbench src_prefix_testbench
               wsecs nsecs ws' ns'.
-Proof. exact (src_export_text_perm_invariant src_present_testbench src_prefix_testbench eq_refl). Qed.
+Proof. exact (src_export_text_perm_invariant src_present_testbench src_valid_testbench src_prefix_testbench eq_refl). Qed.
 
 (* the same with hypotheses on the DESIGN only (no memory-write nets): wire names pairwise
    distinct and not already of the generated form, every net sorted by the name of a
@@ -93,15 +93,15 @@ Theorem src_verilog_text_perm_invariant_names : forall wsecs nsecs ws ws' ns ns'
   (forall w, In w ws -> has_prefix src_prefix_verilog (wname w) = false) ->
   (forall n, In n ns -> nraw n = false /\ In (nsort n) (map wname ws)) ->
   NoDup (map nsort ns) ->
-  export_text src_natural_key src_natural_key_ltb src_present_verilog src_verilog_valid src_prefix_verilog
+  export_text src_natural_key src_natural_key_ltb src_present_verilog src_valid_verilog src_prefix_verilog
               wsecs nsecs ws ns =
-  export_text src_natural_key src_natural_key_ltb src_present_verilog src_verilog_valid src_prefix_verilog
+  export_text src_natural_key src_natural_key_ltb src_present_verilog src_valid_verilog src_prefix_verilog
               wsecs nsecs ws' ns'.
 Proof.
   intros wsecs nsecs ws ws' ns ns' Pw Pn ND NP Hn NDn.
   apply src_verilog_text_perm_invariant; auto.
-  - exact (export_vn_sorted_NoDup src_verilog_valid src_prefix_verilog ws ND NP).
-  - exact (export_nets_sorted_NoDup src_verilog_valid src_prefix_verilog ws ns ND NP Hn NDn).
+  - exact (export_vn_sorted_NoDup src_valid_verilog src_prefix_verilog ws ND NP).
+  - exact (export_nets_sorted_NoDup src_valid_verilog src_prefix_verilog ws ns ND NP Hn NDn).
 Qed.
 
 (* print_trace: the trace dict has one entry per name *)
@@ -118,8 +118,8 @@ Qed.
 (* print_vcd: also independent of the order of wires_to_track *)
 Theorem src_vcd_text_perm_invariant : forall render_var tracked tracked' (items items' : list titem),
   Permutation tracked tracked' -> Permutation items items' -> NoDup (map fst items) ->
-  vcd_text src_trace_key src_trace_key_ltb src_present_vcd src_verilog_valid src_prefix_vcd render_var tracked items =
-  vcd_text src_trace_key src_trace_key_ltb src_present_vcd src_verilog_valid src_prefix_vcd render_var tracked' items'.
+  vcd_text src_trace_key src_trace_key_ltb src_present_vcd src_valid_vcd src_prefix_vcd render_var tracked items =
+  vcd_text src_trace_key src_trace_key_ltb src_present_vcd src_valid_vcd src_prefix_vcd render_var tracked' items'.
 Proof.
   intros render_var tracked tracked' items items' Pt P ND.
   apply vcd_text_perm_invariant; auto. exact src_trace_ltb_strict_total.
@@ -127,10 +127,28 @@ Proof.
   - intros x y Hx Hy E. apply src_trace_key_injective in E. eapply NoDup_map_inj_in; eauto.
 Qed.
 
-(* ---- what is still schedule-dependent in the source: `_net_sorted` sorts a memory-write
-   net by str(args[2]) (its write-enable wire) only, so two write ports sharing one enable
-   wire tie and are emitted in set order.  Witness: two such ports, rendered with their
-   address and data names. ---- *)
+(* ---- the name `_net_sorted` sorts a memory-write net by.  The statement says which of the
+   two situations the source is in NOW (the generator reads it off `_net_sorted`): either the
+   name is built from enable, address and data and determines the port, or it is the enable
+   wire alone and two write ports sharing one enable collide -- and are then emitted in set
+   order (next theorem). ---- *)
+Definition memwrite_sort_key_status : Prop :=
+  if src_memwrite_total
+  then forall we a d we' a' d' : name,
+         no_space we = true -> no_space a = true -> no_space we' = true -> no_space a' = true ->
+         src_memwrite_sortname we a d = src_memwrite_sortname we' a' d' ->
+         we = we' /\ a = a' /\ d = d'
+  else exists we a d a' d' : name,
+         (a, d) <> (a', d') /\ src_memwrite_sortname we a d = src_memwrite_sortname we a' d'.
+
+Theorem src_memwrite_sort_key_status : memwrite_sort_key_status.
+Proof.
+  unfold memwrite_sort_key_status, src_memwrite_total, src_memwrite_sortname.
+  first [ exact memwrite_sortname_all_injective | exact memwrite_sortname_enable_collides ].
+Qed.
+
+(* two nets sorted by the same name are emitted in set order.  Witness: two write ports
+   rendered with their address and data names. *)
 Definition demo_nsec : section nitem :=
   {| s_head := []; s_sel := fun _ => true;
      s_render := fun n => (List.concat (nnames n) ++ [ascii_of_N 10])%list |}.
@@ -139,9 +157,9 @@ Definition demo_write (addr data : string) : nitem :=
 
 Theorem src_shared_write_enable_refuted : exists ns ns',
   Permutation ns ns' /\ NoDup ns /\
-  export_text src_natural_key src_natural_key_ltb src_present_verilog src_verilog_valid src_prefix_verilog
+  export_text src_natural_key src_natural_key_ltb src_present_verilog src_valid_verilog src_prefix_verilog
               [] [demo_nsec] [] ns <>
-  export_text src_natural_key src_natural_key_ltb src_present_verilog src_verilog_valid src_prefix_verilog
+  export_text src_natural_key src_natural_key_ltb src_present_verilog src_valid_verilog src_prefix_verilog
               [] [demo_nsec] [] ns'.
 Proof.
   exists [demo_write "a0" "d0"; demo_write "a1" "d1"], [demo_write "a1" "d1"; demo_write "a0" "d0"].
